@@ -692,7 +692,10 @@ class Dataset(AbstractDataset, dict, OpMixin, GetSetDelAttrMixin):
         if not np.iterable(indices):
             raise TypeError("indices must be iterable")
         indexing = indexing or getattr(self, "_indexing", None) or get_option("indexing.by")
-        if indexing == "label":
+        if np.asarray(indices).dtype.kind == 'b':
+            # a boolean mask selects the slices where it is True (like DimArray.take_axis)
+            indices = np.nonzero(np.asarray(indices))[0]
+        elif indexing == "label":
             indices = self.axes[axis].loc(indices, mode=mode)
         if mode not in ('raise', 'clip', 'wrap'):
             mode = 'raise'
